@@ -306,6 +306,78 @@ def run(ctx):
                           {"got": str(out)[:200] if out[0] != "ok" else out[1].nonce_offset, "stub_len": len(stub), "decoy_offset": q})
         ctx.count_distinct(("decoy", rep))
     ctx.sample({"detect_row": tab["detect"][0]})
+    # stages of 2 GiB and more, located by the size field alone (a sparse file object: header + encoded image head, then a hole)
+    class Sparse:
+        def __init__(self, size, head):
+            self.size, self.head, self.pos = size, head, 0
+
+        def seek(self, off, whence=0):
+            self.pos = off if whence == 0 else self.pos + off if whence == 1 else self.size + off
+            return self.pos
+
+        def tell(self):
+            return self.pos
+
+        def read(self, n=-1):
+            end = self.size if n is None or n < 0 else min(self.size, self.pos + n)
+            if end - self.pos > 1 << 24:
+                raise MemoryError("the harness' sparse file refuses reads of more than 16 MiB")
+            out = bytearray(max(0, end - self.pos))
+            lo, hi = self.pos, min(end, len(self.head))
+            if lo < hi:
+                out[: hi - lo] = self.head[lo:hi]
+            self.pos = max(self.pos, end)
+            return bytes(out)
+
+    for dsize in [(1 << 20) + 3, (1 << 31) - 3, 1 << 31, (1 << 31) + 5, 3 * (1 << 30) + 2]:
+        img, _ = refpe.build_pe(arch=rng.choice(["x86", "x64"]), n_sections=2)
+        img = bytes(img)[:4096]
+        nn = bytes(rng.randrange(1, 255) for _ in range(4))
+        stub = bytes(rng.choice([0x90, 0xCC, 0x41]) for _ in range(rng.choice([0, 7, 60])))
+        head = stub + nn + bytes(a ^ b for a, b in zip(struct.pack("<I", dsize), nn)) + xorenc.encode(img, nn)
+        sp = Sparse(len(stub) + 8 + dsize, head)
+        out = core.guarded(lambda: XF.from_file(sp), seconds=120)
+        ctx.evaluations += 1
+        good = out[0] == "ok" and out[1].nonce_offset == len(stub) and core.outcome(lambda: (out[1].seek(3), out[1].read(1000), out[1].tell())[1:]) == ("ok", (img[3:1003], 1003))
+        if not good:
+            ctx.violation("XorEncodedFile.from_file disagrees with XorFileR.DetectExpect", {"op": "XorEncodedFile.from_file", "expect": "found", "stub": "plain", "sizeok": True, "got_kind": "large_stage"},
+                          {"decoded_size": dsize, "stub_len": len(stub), "got": str(out)[:200] if out[0] != "ok" else out[1].nonce_offset})
+        ctx.count_distinct(("sparse_stage", dsize))
+    # stubs longer than the default search range: found when the caller widens the range, by path as well as by file object
+    for slen, route in [(1500, "marker"), (1500, "size"), (2500, "both"), (9000, "size")]:
+        img, _ = refpe.build_pe(arch=rng.choice(["x86", "x64"]), n_sections=2)
+        img = bytes(img)
+        nn = bytes(rng.randrange(1, 255) for _ in range(4))
+        stub = bytes(rng.choice([0x90, 0xCC, 0x41]) for _ in range(slen - 3)) + (b"\xff\xff\xff" if route in ("marker", "both") else b"\x90\x90\x90")
+        data = xorenc.stage(stub, nn, img, b"" if route in ("size", "both") else b"trailing")
+        d_ = tempfile.mkdtemp(prefix="vt-c09p-")
+        try:
+            fp = os.path.join(d_, "stage.bin")
+            with open(fp, "wb") as fh:
+                fh.write(data)
+            for api in ("from_path", "from_file"):
+                mr = slen + rng.choice([16, 100, 1000])
+                if api == "from_path":
+                    out = core.outcome(lambda: XF.from_path(fp, maxrange=mr))
+                else:
+                    fh2 = open(fp, "rb")
+                    out = core.outcome(lambda: XF.from_file(fh2, maxrange=mr))
+                ctx.evaluations += 1
+                good = out[0] == "ok" and out[1].nonce_offset == len(stub) and core.outcome(lambda: (out[1].seek(0), out[1].read(len(img)))[1]) == ("ok", img)
+                if not good:
+                    ctx.violation("XorEncodedFile.from_file disagrees with XorFileR.DetectExpect",
+                                  {"op": "XorEncodedFile." + api, "expect": "found", "stub": "long_" + route, "sizeok": route != "marker", "got_kind": out[0] if out[0] != "ok" else "other_offset"},
+                                  {"stub_len": len(stub), "maxrange": mr, "got": str(out)[:200] if out[0] != "ok" else out[1].nonce_offset})
+                if out[0] == "ok":
+                    try:
+                        out[1].fh.close()
+                    except Exception:  # noqa: BLE001
+                        pass
+                if api == "from_file":
+                    fh2.close()
+            ctx.count_distinct(("long_stub", slen, route))
+        finally:
+            shutil.rmtree(d_, ignore_errors=True)
     # inputs that are not XorEncoded at all
     plain_pe, _ = refpe.build_pe()
     for data in [b"", b"\x00" * 7, plain_pe, bytes(rng.randrange(256) for _ in range(2000)), b"\xff\xff\xff" * 20]:
